@@ -46,6 +46,7 @@ type c16e3Variant struct {
 	Paths   int
 	Waiting []int // paths whose Probe is already running (registered, queued for probing, waiting in its select) when the threads start
 	Threads [][]string
+	Big     bool // thorough tier only (explored with the quick tier's preemption bound)
 }
 
 // steps (p = path number 1..Paths):
@@ -60,20 +61,25 @@ type c16e3Variant struct {
 // which changes Probe's return value only - no scheduler point follows and nothing the oracle
 // or the outcome classes read.
 var c16e3Variants = []c16e3Variant{
-	{"probe1|next|close1", 2, false, 1, nil, [][]string{{"probe1"}, {"next"}, {"close1"}}},
-	{"probing1:next-next|timer1|close1", 2, false, 1, []int{1}, [][]string{{"next", "next"}, {"timer1"}, {"close1"}}},
-	{"probing1:next-resp|close1", 2, false, 1, []int{1}, [][]string{{"next", "resp"}, {"close1"}}},
-	{"probing1:next-resp-sw|switch1-close1", 2, false, 1, []int{1}, [][]string{{"next", "resp", "sw"}, {"switch1", "close1"}}},
-	{"probing1:probe2|next-next|close1", 3, false, 2, []int{1}, [][]string{{"probe2"}, {"next", "next"}, {"close1"}}},
-	{"probing1+2:next-next|close1|close2", 3, false, 2, []int{1, 2}, [][]string{{"next", "next"}, {"close1"}, {"close2"}}},
-	{"probing1+2:next-resp-next-sw|switch1-close2", 3, false, 2, []int{1, 2}, [][]string{{"next", "resp", "next", "sw"}, {"switch1", "close2"}}},
-	{"no-ids:probing1:next-ncid-next|close1", 0, false, 1, []int{1}, [][]string{{"next", "ncid", "next"}, {"close1"}}},
-	{"one-id:probing1+2:next-next-ncid-next|close1", 1, false, 2, []int{1, 2}, [][]string{{"next", "next", "ncid", "next"}, {"close1"}}},
-	{"zerolen:probing1:next-resp|close1", 0, true, 1, []int{1}, [][]string{{"next", "resp"}, {"close1"}}},
+	{"probe1|next|close1", 2, false, 1, nil, [][]string{{"probe1"}, {"next"}, {"close1"}}, false},
+	{"probing1:next-next|timer1|close1", 2, false, 1, []int{1}, [][]string{{"next", "next"}, {"timer1"}, {"close1"}}, false},
+	{"probing1:next-resp|close1", 2, false, 1, []int{1}, [][]string{{"next", "resp"}, {"close1"}}, false},
+	{"probing1:next-resp-sw|switch1-close1", 2, false, 1, []int{1}, [][]string{{"next", "resp", "sw"}, {"switch1", "close1"}}, false},
+	{"probing1:probe2|next-next|close1", 3, false, 2, []int{1}, [][]string{{"probe2"}, {"next", "next"}, {"close1"}}, false},
+	{"probing1+2:next-next|close1|close2", 3, false, 2, []int{1, 2}, [][]string{{"next", "next"}, {"close1"}, {"close2"}}, false},
+	{"probing1+2:next-resp-next-sw|switch1-close2", 3, false, 2, []int{1, 2}, [][]string{{"next", "resp", "next", "sw"}, {"switch1", "close2"}}, false},
+	{"no-ids:probing1:next-ncid-next|close1", 0, false, 1, []int{1}, [][]string{{"next", "ncid", "next"}, {"close1"}}, false},
+	{"one-id:probing1+2:next-next-ncid-next|close1", 1, false, 2, []int{1, 2}, [][]string{{"next", "next", "ncid", "next"}, {"close1"}}, false},
+	{"zerolen:probing1:next-resp|close1", 0, true, 1, []int{1}, [][]string{{"next", "resp"}, {"close1"}}, false},
+	{"probing1:next-resp-next|probe1|close1", 2, false, 1, []int{1}, [][]string{{"next", "resp", "next"}, {"probe1"}, {"close1"}}, false},
+	{"probing1:next|switch1|close1", 2, false, 1, []int{1}, [][]string{{"next"}, {"switch1"}, {"close1"}}, false},
+	{"probe1|probe2|next-next|close1", 3, false, 2, nil, [][]string{{"probe1"}, {"probe2"}, {"next", "next"}, {"close1"}}, true},
+	{"probe1|next-next|timer1|close1", 2, false, 1, nil, [][]string{{"probe1"}, {"next", "next"}, {"timer1"}, {"close1"}}, true},
+	{"probing1:probe2|next-next|close1|close2", 3, false, 2, []int{1}, [][]string{{"probe2"}, {"next", "next"}, {"close1"}, {"close2"}}, true},
 }
 
 type c16e3Replay struct {
-	Variant  int      `json:"variant"`
+	Variant  string   `json:"variant"`
 	Choices  []int    `json:"choices"`
 	Suppress []string `json:"suppress,omitempty"` // keys reported by earlier passes over this mix (not judged in this execution)
 }
@@ -90,10 +96,11 @@ type c16e3Path struct {
 
 	probeInFlight atomic.Int32 // Probe calls that have not returned
 	probeWaiting  bool         // a Probe of this path has been seen waiting in its select (path registered and queued)
+	probeStarting int          // Probe calls that were made and have neither reached their select nor returned
 	closeInFlight int
 	closeCalled   bool
 	abandoned     bool // some Path.Close returned nil
-	earlyClose    bool // Close was called before a Probe of this path had reached its select
+	earlyClose    bool // a Close call and the start of a Probe call (entry until it waits in its select) of this path were not ordered: Close was called while no Probe was waiting or while one was starting, or Probe was called after Close
 	overlap       bool // a NextPathToProbe call and a Close call of this path overlapped
 	validated     bool // the PATH_RESPONSE for one of its challenges has been handed to HandlePathResponseFrame
 	validAtClose  bool // ... before Close returned
@@ -138,6 +145,8 @@ func c16e3Scenario(v c16e3Variant, suppress map[string]bool) func() *sched.Scena
 			explore.Must(m.Add(c16e3NCID(nextSeq)) == nil, "initial NEW_CONNECTION_ID refused")
 			nextSeq++
 		}
+		var evs []string // what the application / the run loop / the connIDManager saw, in order
+		ev := func(f string, a ...any) { evs = append(evs, fmt.Sprintf(f, a...)) }
 		paths := make([]*c16e3Path, v.Paths+1) // index = pathID
 		scheduled := 0
 		pm := newPathManagerOutgoing(
@@ -151,11 +160,12 @@ func c16e3Scenario(v c16e3Variant, suppress map[string]bool) func() *sched.Scena
 					}
 					if !known {
 						st.handed = append(st.handed, c16e3Handed{seq: seq, afterAbandon: st.abandoned})
+						ev("GetConnIDForPath(%d)=id%d", id, seq)
 					}
 				}
 				return c, ok
 			},
-			m.RetireConnIDForPath,
+			func(id pathID) { ev("RetireConnIDForPath(%d)", id); m.RetireConnIDForPath(id) },
 			func() { scheduled++ },
 		)
 		for p := 1; p <= v.Paths; p++ {
@@ -178,29 +188,45 @@ func c16e3Scenario(v c16e3Variant, suppress map[string]bool) func() *sched.Scena
 		var lastChallenge *[8]byte
 		lastChallengePath := 0
 		nextFail, respN, swOK, ncidErr := 0, 0, 0, 0
+		for _, p := range v.Waiting {
+			ev("probe%d waiting", p)
+		}
 
-		step := func(name string) func() {
+		starting := map[int]*c16e3Path{} // thread -> path whose Probe this thread has called and that has not been seen waiting
+		step := func(thread int, name string) func() {
 			pn := func(prefix string) *c16e3Path { return paths[int(name[len(prefix)]-'0')] }
 			switch {
 			case strings.HasPrefix(name, "probe"):
 				st := pn("probe")
 				return func() {
+					ev("%s called", name)
+					if st.closeCalled {
+						st.earlyClose = true
+					}
+					st.probeStarting++
+					starting[thread] = st
 					st.probeInFlight.Add(1)
 					_ = st.path.Probe(ctx) // the return value is not judged (see the note on select above)
 					st.probeInFlight.Add(-1)
+					if starting[thread] == st {
+						st.probeStarting--
+						delete(starting, thread)
+					}
 				}
 			case strings.HasPrefix(name, "close"):
 				st := pn("close")
 				return func() {
-					if !st.closeCalled && !st.probeWaiting {
+					if !st.probeWaiting || st.probeStarting > 0 {
 						st.earlyClose = true
 					}
+					ev("%s called", name)
 					st.closeCalled = true
 					st.closeInFlight++
 					if nextInFlight > 0 {
 						st.overlap = true
 					}
 					err := st.path.Close()
+					ev("%s returned %v", name, err)
 					st.closeInFlight--
 					if err == nil {
 						if !st.abandoned {
@@ -214,7 +240,9 @@ func c16e3Scenario(v c16e3Variant, suppress map[string]bool) func() *sched.Scena
 			case strings.HasPrefix(name, "switch"):
 				st := pn("switch")
 				return func() {
-					if st.path.Switch() == nil {
+					err := st.path.Switch()
+					ev("%s returned %v", name, err)
+					if err == nil {
 						st.switchOK++
 					} else {
 						st.switchErr++
@@ -224,11 +252,13 @@ func c16e3Scenario(v c16e3Variant, suppress map[string]bool) func() *sched.Scena
 				st := pn("timer")
 				return func() {
 					if st.probeInFlight.Load() > 0 { // the timer belongs to a running Probe
+						ev("%s (probe timer fired)", name)
 						pm.enqueueProbe(st.path)
 					}
 				}
 			case name == "next":
 				return func() {
+					ev("next called")
 					nextInFlight++
 					for _, st := range paths[1:] {
 						if st.closeInFlight > 0 {
@@ -238,12 +268,14 @@ func c16e3Scenario(v c16e3Variant, suppress map[string]bool) func() *sched.Scena
 					_, fr, tr, ok := pm.NextPathToProbe()
 					nextInFlight--
 					if !ok {
+						ev("next returned: nothing to probe")
 						nextFail++
 						return
 					}
 					for p, st := range paths {
 						if st != nil && st.tr == tr {
 							st.nextOK++
+							ev("next returned: PATH_CHALLENGE for path %d", p)
 							d := fr.Frame.(*wire.PathChallengeFrame).Data
 							lastChallenge, lastChallengePath = &d, p
 						}
@@ -256,6 +288,7 @@ func c16e3Scenario(v c16e3Variant, suppress map[string]bool) func() *sched.Scena
 					}
 					respN++
 					paths[lastChallengePath].validated = true
+					ev("resp called (path %d)", lastChallengePath)
 					pm.HandlePathResponseFrame(&wire.PathResponseFrame{Data: *lastChallenge})
 				}
 			case name == "sw":
@@ -266,6 +299,7 @@ func c16e3Scenario(v c16e3Variant, suppress map[string]bool) func() *sched.Scena
 				}
 			case name == "ncid":
 				return func() {
+					ev("ncid(%d)", nextSeq)
 					if m.Add(c16e3NCID(nextSeq)) != nil {
 						ncidErr++
 					}
@@ -278,7 +312,7 @@ func c16e3Scenario(v c16e3Variant, suppress map[string]bool) func() *sched.Scena
 		for i, t := range v.Threads {
 			var steps []func()
 			for _, n := range t {
-				steps = append(steps, step(n))
+				steps = append(steps, step(i, n))
 			}
 			threads = append(threads, sched.Thread{Name: fmt.Sprintf("T%d:%s", i, t[0]), Steps: steps})
 		}
@@ -286,7 +320,7 @@ func c16e3Scenario(v c16e3Variant, suppress map[string]bool) func() *sched.Scena
 			var fails []*explore.Fail
 			bad := func(key, f string, a ...any) {
 				if !suppress[key] {
-					fails = append(fails, explore.Failf(key, "%s: %s", v.Name, fmt.Sprintf(f, a...)))
+					fails = append(fails, explore.Failf(key, "%s: %s | events: %s", v.Name, fmt.Sprintf(f, a...), strings.Join(evs, "; ")))
 				}
 			}
 			for p := 1; p <= v.Paths; p++ {
@@ -336,8 +370,12 @@ func c16e3Scenario(v c16e3Variant, suppress map[string]bool) func() *sched.Scena
 			Threads: threads,
 			Observe: func(blocked []string) {
 				for _, b := range blocked {
-					if i := strings.Index(b, ":probe"); i >= 0 {
-						paths[int(b[i+6]-'0')].probeWaiting = true
+					var thread int
+					fmt.Sscanf(b, "T%d:", &thread)
+					if st := starting[thread]; st != nil {
+						st.probeWaiting = true
+						st.probeStarting--
+						delete(starting, thread)
 					}
 				}
 			},
@@ -401,14 +439,23 @@ func TestVerifC16E3(t *testing.T) {
 				bound = 3
 			}
 			outcomes := map[string]bool{}
-			for vi, v := range c16e3Variants {
+			nmix := 0
+			for _, v := range c16e3Variants {
+				if v.Big && !e.Thorough() {
+					continue
+				}
+				nmix++
 				// One pass stops at its first violation. Its key is then left out and the mix is
 				// explored again, so that every history class that fails is reported by itself
 				// (a known finding in one class must not hide another class).
 				var suppressed []string
 				for pass := 0; pass < 8; pass++ {
-					explore.MarkCurrent(e, name, c16e3Replay{Variant: vi, Suppress: suppressed})
-					r := sched.ExploreBounded(t, e, bound, 0, c16e3Scenario(v, c16e3Set(suppressed)))
+					explore.MarkCurrent(e, name, c16e3Replay{Variant: v.Name, Suppress: suppressed})
+					b := bound
+					if v.Big {
+						b = 2
+					}
+					r := sched.ExploreBounded(t, e, b, 0, c16e3Scenario(v, c16e3Set(suppressed)))
 					if pass == 0 || r.Fail == nil {
 						rep.Samples = append(rep.Samples, fmt.Sprintf("%s: %d schedules (pass %d)", v.Name, r.Executions, pass+1))
 					}
@@ -425,7 +472,7 @@ func TestVerifC16E3(t *testing.T) {
 						break
 					}
 					rep.Violations = append(rep.Violations, explore.Violation{Key: r.Fail.Key, What: r.Fail.What,
-						Replay: explore.JSON(c16e3Replay{vi, r.FailChoice, append([]string{}, suppressed...)}), Human: r.FailTrace})
+						Replay: explore.JSON(c16e3Replay{v.Name, r.FailChoice, append([]string{}, suppressed...)}), Human: r.FailTrace})
 					suppressed = append(suppressed, r.Fail.Key)
 				}
 			}
@@ -437,7 +484,7 @@ func TestVerifC16E3(t *testing.T) {
 			rep.OutcomesN = int64(len(rep.Outcomes))
 			rep.States = rep.OutcomesN
 			rep.Traces = rep.Transitions
-			rep.Rule = fmt.Sprintf("%d thread mixes on one real pathManagerOutgoing wired to one real connIDManager (Path.Probe / Close / Switch and the probe timer from application goroutines against NextPathToProbe, HandlePathResponseFrame, ShouldSwitchPath, NEW_CONNECTION_ID on the run loop; 1-2 paths; 0-3 spare peer IDs; zero-length IDs) with every mutex Lock and Unlock of path_manager_outgoing.go and the Transport lock inside enablePath as scheduler points (file import-rewritten to vsync from the working tree): every schedule with at most %d preemptions", len(c16e3Variants), bound)
+			rep.Rule = fmt.Sprintf("%d thread mixes on one real pathManagerOutgoing wired to one real connIDManager (Path.Probe / Close / Switch and the probe timer from application goroutines against NextPathToProbe, HandlePathResponseFrame, ShouldSwitchPath, NEW_CONNECTION_ID on the run loop; 1-2 paths; 0-3 spare peer IDs; zero-length IDs) with every mutex Lock and Unlock of path_manager_outgoing.go and the Transport lock inside enablePath as scheduler points (file import-rewritten to vsync from the working tree): every schedule with at most %d preemptions (the thorough tier's additional 4-5 thread mixes: at most 2)", nmix, bound)
 			rep.Bound = fmt.Sprintf("preemption bound %d completed", bound)
 			return rep
 		},
@@ -446,7 +493,14 @@ func TestVerifC16E3(t *testing.T) {
 			if err := json.Unmarshal(raw, &rp); err != nil {
 				t.Fatal(err)
 			}
-			f, trace := sched.Replay(t, c16e3Scenario(c16e3Variants[rp.Variant], c16e3Set(rp.Suppress)), rp.Choices)
+			var v *c16e3Variant
+			for i := range c16e3Variants {
+				if c16e3Variants[i].Name == rp.Variant {
+					v = &c16e3Variants[i]
+				}
+			}
+			explore.Must(v != nil, "replay names an unknown thread mix %q", rp.Variant)
+			f, trace := sched.Replay(t, c16e3Scenario(*v, c16e3Set(rp.Suppress)), rp.Choices)
 			if f == nil {
 				return nil
 			}
